@@ -51,10 +51,10 @@ def confirm(seed, wt, src):
     if rc != 0:
         res["suite_tail"] = o[-3000:]
     shutil.copy(demo, f"{wt}/tests/seeded_demo.rs")
-    rc1, o1 = sh("cargo test --offline --test seeded_demo 2>&1", cwd=wt, timeout=1800)
+    rc1, o1 = sh("cargo test --offline --features compiler --test seeded_demo 2>&1", cwd=wt, timeout=1800)
     res["demo_with_change"] = {"exit": rc1, "tail": o1[-1500:]}
     sh(f"git apply -R {patch}", cwd=wt)
-    rc2, o2 = sh("cargo test --offline --test seeded_demo 2>&1", cwd=wt, timeout=1800)
+    rc2, o2 = sh("cargo test --offline --features compiler --test seeded_demo 2>&1", cwd=wt, timeout=1800)
     res["demo_without_change"] = {"exit": rc2, "tail": o2[-600:]}
     ok = res["suite_with_change"]["exit"] == 0 and passed >= 191 and rc1 != 0 and "test result: FAILED" in o1 and rc2 == 0 and only_src
     res["confirmed"] = ok
